@@ -29,7 +29,7 @@ ASSUMPTIONS = [
     "ascent asserted for normalizeU=False (tolerance 1e-8 relative), agreement with the definition for min_value_par=0 (tolerance 1e-6 relative)",
     "scikit-learn / BLAS threads pinned to 1 by the check's environment",
 ]
-RULE = ("one run = one hypergraph (5-9 nodes incl. isolated, D 2-4, weighted or not) and one (K, seed, n_realizations, max_iter, normalizeU, baseline_r0, "
+RULE = ("one run = one hypergraph (5-9 nodes incl. isolated, D 2-4, weighted or not; 0.4% of the runs: 1001-1100 nodes, sparse, D 2-3) and one (K, seed, n_realizations, max_iter, normalizeU, baseline_r0, "
         "min_value_par) configuration; HypergraphMT.fit is executed twice with the same seed - second time under a jumping/backward clock, perturbed "
         "global PRNGs - and HySC.fit twice.  Non-trivial: >= 2 EM iterations recorded and >= 1 clock anomaly or adversarial permutation; distinct = result digests.")
 # documented frequency of the three listed known findings on the unchanged tree (12000-run soak): 0.07%, 0.14%, 0.6% of
@@ -40,8 +40,34 @@ TIERS = {"quick": {"runs": 2000, "wall_cap": 240, "det_seeds": 6, "min_tests": 1
          "thorough": {"runs": 25000, "wall_cap": 3000, "det_seeds": 24, "min_tests": 500}}
 
 
+def _generate_huge(seed, rng):
+    """A rare run at another scale: just over a thousand nodes, sparse, one realisation, a few EM iterations."""
+    N = rng.choice([1001, 1003, 1024, 1100])
+    D = rng.randint(2, 3)
+    nodes = list(range(N))
+    edges, seen = [], set()
+    order = nodes[:]
+    rng.shuffle(order)
+    for i in range(0, N - 1, 2):  # a sparse backbone, then random hyperedges
+        e = [order[i], order[i + 1]] + ([order[(i + 7) % N]] if D == 3 and rng.random() < 0.4 else [])
+        if len(set(e)) == len(e) and frozenset(e) not in seen:
+            seen.add(frozenset(e)); edges.append(e)
+    for _ in range(rng.randint(100, 400)):
+        e = rng.sample(nodes, rng.randint(2, D))
+        if frozenset(e) not in seen:
+            seen.add(frozenset(e)); edges.append(e)
+    weighted = rng.random() < 0.5
+    return {"seed": seed, "q": rng.choice([0.0, 0.2]), "spec": {"nodes": nodes, "edges": edges, "labels": "int"}, "weighted": weighted,
+            "weights": [rng.randint(1, 4) for _ in edges], "K": rng.randint(2, 3), "sut_seed": rng.choice([0, 1, rng.randint(0, 10**5)]),
+            "reuse_object": rng.random() < 0.35, "n_real": 1, "max_iter": rng.randint(1, 4),
+            "normalizeU": rng.random() < 0.4, "baseline_r0": rng.random() < 0.7, "min_value_par": 0.0,
+            "init": None, "init_seed": 0, "huge": True}
+
+
 def generate(seed, tier):
     rng = random.Random(seed)
+    if rng.random() < 0.004:
+        return _generate_huge(seed, rng)
     N = rng.randint(5, 9)
     D = rng.randint(2, 4)
     n_iso = rng.choice([0, 0, 1, 2])
@@ -173,6 +199,17 @@ def _definition_loglik(u, w, edges_idx, weights, N, D):
         for k in range(K):
             s += w[len(e) - 2, k] * math.prod(u[i, k] for i in e)
         tot += a * math.log(s + 1e-300)
+    if N > 14:
+        # sum over all d-subsets of prod u[i, k] = elementary symmetric polynomial e_d(u[:, k]) (one pass per k)
+        for k in range(K):
+            el = [1.0] + [0.0] * D
+            for i in range(N):
+                x = float(u[i, k])
+                for d in range(D, 0, -1):
+                    el[d] += el[d - 1] * x
+            for d in range(2, D + 1):
+                tot -= w[d - 2, k] * el[d]
+        return tot
     for d in range(2, D + 1):
         for S in itertools.combinations(range(N), d):
             for k in range(K):
@@ -313,6 +350,19 @@ def simplify(case):
             c2 = dict(c)
             c2[fld] = case[fld] - 1
             yield c2
+    if case.get("huge"):
+        # every test costs seconds at this scale: only coarse deletions (halves, quarters, eighths of the hyperedge list)
+        m = len(case["spec"]["edges"])
+        for parts in (2, 4, 8):
+            size = m // parts
+            if size < 20:
+                break
+            for j in range(parts):
+                c2 = json.loads(json.dumps(c))
+                del c2["spec"]["edges"][j * size:(j + 1) * size]
+                del c2["weights"][j * size:(j + 1) * size]
+                yield c2
+        return
     for i in range(len(case["spec"]["edges"])):
         if len(case["spec"]["edges"]) > 3:
             c2 = json.loads(json.dumps(c))
